@@ -273,8 +273,13 @@ structure Ghost where
   committed : List (Nat × Nat × Bool) := []
   /-- (chan, id, cause) committed tasks later moved back into an abortable state -/
   tainted : List (Nat × Nat × String) := []
+  /-- the case already contains the known same-batch re-activation: the active index no longer covers every
+      active row, so the precondition of `c17_one_active*` is gone for the rest of this case -/
+  reactTainted : Bool := false
 
 structure DState where
+  /-- number of ops seen in this case (the `chmode` op is honoured only as the first) -/
+  nops : Nat := 0
   model : State := State.empty
   impl : State := State.empty
   ghost : Ghost := {}
@@ -292,6 +297,7 @@ def judgeLine (g : Ghost) (pre post : State) (isSetMeta : Bool) (cmds : List Cmd
      | _, _ => false))
   let v1 := if pre.oneActive && !post.oneActive then
               (if cmds.length ≥ 2 && reactivates then "viol:two-active:same-batch:reactivate"
+               else if g.reactTainted then "viol:two-active:after-same-batch-reactivate"
                else if (cmds.filter (fun c => c.kind == .create || c.kind == .createg)).length ≥ 2 then "viol:two-active:same-batch:create"
                else "viol:two-active") else "ok"
   -- J2 stored metadata valid
@@ -370,13 +376,19 @@ def judgeLine (g : Ghost) (pre post : State) (isSetMeta : Bool) (cmds : List Cmd
         some (p.1, p.2.1, cause)
       else none
     | _, _ => none)
-  (verdict, { committed := committed2, tainted := tainted1 ++ newTaint })
+  (verdict, { committed := committed2, tainted := tainted1 ++ newTaint,
+              reactTainted := g.reactTainted || v1 == "viol:two-active:same-batch:reactivate" })
 
 def resStr : Except Err (List String) → String
   | .ok rs => ",".intercalate rs
   | .error e => e.str
 
-def step (d : DState) (op impl : String) : DState × String × String :=
+def step (d0 : DState) (op impl : String) : DState × String × String :=
+  let d := { d0 with nops := d0.nops + 1 }
+  -- `chmode k`: how the harness maps the two model channels to real (id,type) channels; no model effect
+  if op == "chmode 0" || op == "chmode 1" || op == "chmode 2" then
+    (d, (if d.nops == 1 then "ok" else "skip") ++ " #" ++ dump d.model, "ok")
+  else
   match parseLine d.model op with
   | none => (d, "bad-op", "ok")
   | some line =>
@@ -398,7 +410,7 @@ def step (d : DState) (op impl : String) : DState × String × String :=
         | some (.batch cs) => (false, cs)
         | _ => (true, [])
       let (verdict, ghost') := judgeLine d.ghost pre post isSet cmds
-      ({ model := model', impl := post, ghost := ghost' }, mout, verdict)
+      ({ d with model := model', impl := post, ghost := ghost' }, mout, verdict)
 
 end WK.C17.Drv
 
